@@ -671,7 +671,7 @@ def check_chunked_blocks(ctx) -> None:
     """R18.8 — the degeneracy header of _hr.dat / _tb.dat is written in chunks of k entries per line; the readers consume lines only
     until N entries are read.  The writer must therefore emit every entry exactly once and never an empty chunk (an empty line
     after the block is taken for the first line of the next block).  Decided from the loop header and the slice bounds."""
-    from ..algebra import Rat, to_rat
+    from .chunks import decide_block_loop
     idx = ctx.index
     r8 = ctx.rule("R18.8", "chunked header blocks: every entry once, no empty chunk", min_instances=2)
     for rel, name in ((HR, "write_hr_file"), (TB, "write_tb_file")):
@@ -679,82 +679,30 @@ def check_chunked_blocks(ctx) -> None:
         f = inline_private_helpers(idx, f0)
         S = Sem(idx, f)
         found = 0
-        for lp in [x for x in ast.walk(f.node) if isinstance(x, ast.For) and isinstance(x.target, ast.Name) and isinstance(x.iter, ast.Call) and call_name(x.iter) == "range"]:
-            i = lp.target.id
-            sls = [x for st in lp.body for x in ast.walk(st) if isinstance(x, ast.Subscript) and isinstance(x.slice, ast.Slice) and x.slice.step is None
-                   and x.slice.lower is not None and x.slice.upper is not None and isinstance(x.value, ast.Name)
-                   and any(isinstance(n, ast.Name) and n.id == i for n in ast.walk(x.slice))]
+        for lp in [x for x in ast.walk(f.node) if isinstance(x, ast.For)]:
             wr = [c for st in lp.body for c in ast.walk(st) if isinstance(c, ast.Call) and isinstance(c.func, ast.Attribute) and c.func.attr == "write"]
-            if len(sls) != 1 or not wr:
+            if not wr:
                 continue
-            sl = sls[0]
-            at = S.cfg.node(lp)
             # N = number of entries of the chunked array
-            arr = S.resolve(sl.value, at)
-            ntxt = None
-            if isinstance(arr, ast.Call) and call_name(arr) in ("np.ones", "np.zeros", "np.empty", "np.full", "np.arange") and arr.args:
-                ntxt = norm(arr.args[0])
-            cands = {f"len({sl.value.id})", f"{sl.value.id}.shape[0]", f"{sl.value.id}.size"} | ({ntxt} if ntxt else set())
-
-            def env(x):
-                t = S.rnorm(x, at) if not isinstance(x, ast.Name) or x.id != i else i
-                if t in cands or norm(x) in cands:
-                    return Rat.sym("N")
-                if isinstance(x, ast.Name):
-                    return Rat.sym(x.id)
-                return None
-
-            def rat(e):
-                try:
-                    return to_rat(e, env)
-                except AnalysisError:
-                    return None
-
-            def upper_forms(e):
-                """the upper bound as a list of Rats whose minimum it is"""
-                if isinstance(e, ast.Call) and call_name(e) in ("min", "np.minimum") and len(e.args) == 2:
-                    return [rat(a) for a in e.args]
-                return [rat(e)]
+            arrs = {x.value.id for st in lp.body for x in ast.walk(st) if isinstance(x, ast.Subscript) and isinstance(x.slice, ast.Slice) and isinstance(x.value, ast.Name)}
+            cands = set()
+            for a_ in arrs:
+                cands |= {f"len({a_})", f"{a_}.shape[0]", f"{a_}.size"}
+                arr = S.resolve(ast.Name(id=a_, ctx=ast.Load()), S.cfg.node(lp))
+                if isinstance(arr, ast.Call) and call_name(arr) in ("np.ones", "np.zeros", "np.empty", "np.full", "np.arange") and arr.args:
+                    cands.add(norm(arr.args[0]))
+            res = decide_block_loop(S, lp, cands)
+            if res is None:
+                continue
+            verdict, why, desc = res
             found += 1
-            r8.instance(f"{f0.short}: for {i} in {norm1(lp.iter)}: …{norm1(sl)}")
-            I, N = Rat.sym(i), Rat.sym("N")
-            args = lp.iter.args
-            lo, ups = rat(sl.slice.lower), upper_forms(sl.slice.upper)
-            verdict, why = None, ""
-            if lo is None or any(u is None for u in ups):
-                verdict = None
-            elif len(args) == 3 and rat(args[0]) is not None and rat(args[0]).equals(Rat.const(0)) and rat(args[1]) is not None and rat(args[1]).equals(N) \
-                    and rat(args[2]) is not None and rat(args[2]).d.as_const() is not None and rat(args[2]).as_poly().as_const() is not None:
-                k = rat(args[2])
-                ok = lo.equals(I) and any(u.equals(I + k) for u in ups) and all(u.equals(I + k) or u.equals(N) for u in ups)
-                verdict, why = ok, f"`{norm1(sl)}` does not take the entries [{i}, {i}+step) of every step of `{norm1(lp.iter)}`"
-            elif len(args) == 1:
-                # chunks k·i … k·(i+1): the number of chunks must be ceil(N / k)
-                d = None
-                for u in ups:
-                    if u is not None and not u.equals(N):
-                        d = u - lo
-                k = d.as_poly().as_const() if d is not None and d.d.as_const() is not None and d.as_poly().as_const() is not None else None
-                if k is not None and k > 0 and lo.equals(I * Rat.const(k)) and all(u.equals(N) or u.equals(lo + Rat.const(k)) for u in ups):
-                    m = S.resolve(args[0], at)
-                    mt = norm(m).replace(" ", "")
-                    for c_ in sorted(cands, key=len, reverse=True):
-                        mt = mt.replace(c_.replace(" ", ""), "N")
-                    kk = str(int(k))
-                    ceil_forms = {f"(N+{kk}-1)//{kk}", f"(N+{int(k) - 1})//{kk}", f"-(-N//{kk})", f"math.ceil(N/{kk})", f"int(np.ceil(N/{kk}))", f"(N-1)//{kk}+1",
-                                  f"int(math.ceil(N/{kk}))"}
-                    if mt in ceil_forms:
-                        verdict = True
-                    elif mt in (f"N//{kk}+1", f"1+N//{kk}"):
-                        verdict, why = False, (f"`{norm1(lp.iter)}` writes N // {kk} + 1 chunks: when the number of entries is a multiple of {kk} the last "
-                                               f"chunk is empty and an empty line follows the block; the reader stops after N entries and takes that line for the "
-                                               f"first line of the next block")
-                    elif mt == f"N//{kk}":
-                        verdict, why = False, f"`{norm1(lp.iter)}` writes N // {kk} chunks: the last N % {kk} entries are never written"
+            r8.instance(f"{f0.short}: {desc}")
             if verdict is None:
-                r8.expect(False, "", f0, lp, f"{f0.qualname}: chunked write `for {i} in {norm1(lp.iter)}` with `{norm1(sl)}` is not in a form whose chunk count can be decided")
+                r8.expect(False, "", f0, lp, f"{f0.qualname}: chunked write `{desc}` is not in a form whose chunk count can be decided")
             else:
-                r8.check(verdict, "every entry is written exactly once and no chunk is empty", f0, lp, why)
+                r8.check(verdict, "every entry is written exactly once and no chunk is empty", f0, lp,
+                         why + " — the reader stops after N entries and takes the empty line that follows the block for the first line of the next block"
+                         if "empty" in why else why)
         r8.expect(found >= 1, f"{name}: chunked header located", f0, f0.node, f"{f0.qualname}: the chunked degeneracy header (k entries per line) was not found")
 
 
